@@ -1,6 +1,10 @@
 mod elem;
+mod fence;
 mod interp;
 mod reg;
+
+#[global_allocator]
+static GLOBAL: fence::FenceAlloc = fence::FenceAlloc;
 
 use elem::*;
 use interp::*;
@@ -8,7 +12,7 @@ use serde_json::{json, Value};
 use std::io::{BufRead, BufWriter, Write};
 
 macro_rules! config {
-    ($name:ident, $label:expr, $tr:ty, $m:ty, $mb:expr, $e:ty, $fixed:expr, $fcap:expr, $backend:expr) => {
+    ($name:ident, $label:expr, $tr:ty, $m:ty, $mb:expr, $e:ty, $fixed:expr, $fcap:expr, $backend:expr $(, $cap:ident)*) => {
         pub struct $name;
         impl Config for $name {
             type Tr = $tr;
@@ -17,7 +21,25 @@ macro_rules! config {
             const NAME: &'static str = $label;
             fn mem_builder() -> Self::M { $mb }
             fn backend() -> (bool, i64, &'static str) { ($fixed, $fcap, $backend) }
+            $( config!(@cap $cap, $e); )*
         }
+    };
+    (@cap resizable, $e:ty) => {
+        const RESIZABLE: bool = true;
+        fn cap_op(v: &mut V<Self>, op: &str, n: usize, typed: bool) -> bool {
+            if typed {
+                let mut t = v.downcast_mut::<$e>().expect("driver: type");
+                match op { "reserve" => t.reserve(n), "reserve_exact" => t.reserve_exact(n), "shrink_to_fit" => t.shrink_to_fit(), _ => t.shrink_to(n) }
+            } else {
+                match op { "reserve" => v.reserve(n), "reserve_exact" => v.reserve_exact(n), "shrink_to_fit" => v.shrink_to_fit(), _ => v.shrink_to(n) }
+            }
+            true
+        }
+        fn with_capacity(n: usize) -> Option<V<Self>> { Some(any_vec::AnyVec::with_capacity_in::<$e>(n, Self::mem_builder())) }
+    };
+    (@cap cloneable, $e:ty) => {
+        const CLONEABLE: bool = true;
+        fn clone_vec(v: &V<Self>) -> Option<V<Self>> { Some(v.clone()) }
     };
 }
 
@@ -27,40 +49,49 @@ use any_vec::traits::{Cloneable, None as TNone};
 use any_vec::mem::Heap;
 
 #[cfg(feature = "alloc")]
-config!(CHeap8d, "heap8d", dyn TNone, Heap, Heap, E8a8d, false, 0, "heap");
+config!(CHeap8d, "heap8d", dyn TNone, Heap, Heap, E8a8d, false, 0, "heap", resizable);
 #[cfg(feature = "alloc")]
-config!(CHeap3n, "heap3n", dyn TNone, Heap, Heap, E3a1n, false, 0, "heap");
+config!(CHeap3n, "heap3n", dyn TNone, Heap, Heap, E3a1n, false, 0, "heap", resizable);
 #[cfg(feature = "alloc")]
-config!(CHeap160, "heap160", dyn Cloneable, Heap, Heap, E160a8d, false, 0, "heap");
+config!(CHeap160, "heap160", dyn Cloneable, Heap, Heap, E160a8d, false, 0, "heap", resizable, cloneable);
 #[cfg(feature = "alloc")]
-config!(CHeap0d, "heap0d", dyn TNone, Heap, Heap, E0a1d, false, 0, "heap");
+config!(CHeap0d, "heap0d", dyn TNone, Heap, Heap, E0a1d, false, 0, "heap", resizable);
 #[cfg(feature = "alloc")]
-config!(CHeap1n, "heap1n", dyn TNone, Heap, Heap, E1a1n, false, 0, "heap");
+config!(CHeap1n, "heap1n", dyn TNone, Heap, Heap, E1a1n, false, 0, "heap", resizable);
 #[cfg(feature = "alloc")]
-config!(CHeap2d, "heap2d", dyn TNone, Heap, Heap, E2a2d, false, 0, "heap");
+config!(CHeap2d, "heap2d", dyn TNone, Heap, Heap, E2a2d, false, 0, "heap", resizable);
 #[cfg(feature = "alloc")]
-config!(CHeap12d, "heap12d", dyn TNone, Heap, Heap, E12a4d, false, 0, "heap");
+config!(CHeap12d, "heap12d", dyn TNone, Heap, Heap, E12a4d, false, 0, "heap", resizable);
 #[cfg(feature = "alloc")]
-config!(CHeap16d, "heap16d", dyn TNone, Heap, Heap, E16a16d, false, 0, "heap");
+config!(CHeap16d, "heap16d", dyn TNone, Heap, Heap, E16a16d, false, 0, "heap", resizable);
 #[cfg(feature = "alloc")]
-config!(CHeap24d, "heap24d", dyn TNone, Heap, Heap, E24a8d, false, 0, "heap");
+config!(CHeap24d, "heap24d", dyn TNone, Heap, Heap, E24a8d, false, 0, "heap", resizable);
 #[cfg(feature = "alloc")]
-config!(CHeap32d, "heap32d", dyn TNone, Heap, Heap, E32a32d, false, 0, "heap");
+config!(CHeap32d, "heap32d", dyn TNone, Heap, Heap, E32a32d, false, 0, "heap", resizable);
 #[cfg(feature = "alloc")]
-config!(CHeap64n, "heap64n", dyn TNone, Heap, Heap, E64a64n, false, 0, "heap");
+config!(CHeap64n, "heap64n", dyn TNone, Heap, Heap, E64a64n, false, 0, "heap", resizable);
 #[cfg(feature = "alloc")]
-config!(CHeap160a32, "heap160a32", dyn TNone, Heap, Heap, E160a32d, false, 0, "heap");
+config!(CHeap160a32, "heap160a32", dyn TNone, Heap, Heap, E160a32d, false, 0, "heap", resizable);
 #[cfg(feature = "alloc")]
-config!(CHeap0n, "heap0n", dyn TNone, Heap, Heap, E0a1n, false, 0, "heap");
+config!(CHeap0n, "heap0n", dyn TNone, Heap, Heap, E0a1n, false, 0, "heap", resizable);
+config!(CFence8d, "fence8d", dyn TNone, fence::FenceMemBuilder, fence::FenceMemBuilder, E8a8d, false, 0, "fence", resizable);
+config!(CFence3n, "fence3n", dyn TNone, fence::FenceMemBuilder, fence::FenceMemBuilder, E3a1n, false, 0, "fence", resizable);
+config!(CFence24d, "fence24d", dyn Cloneable, fence::FenceMemBuilder, fence::FenceMemBuilder, E24a8d, false, 0, "fence", resizable, cloneable);
+config!(CFence160, "fence160", dyn TNone, fence::FenceMemBuilder, fence::FenceMemBuilder, E160a32d, false, 0, "fence", resizable);
+config!(CFence0d, "fence0d", dyn TNone, fence::FenceMemBuilder, fence::FenceMemBuilder, E0a1d, false, 0, "fence", resizable);
 config!(CStack24x3, "stack24x3", dyn TNone, Stack<72>, Stack::<72>, E24a8d, true, 3, "stack");
-config!(CStackN3, "stackn3", dyn Cloneable, StackN<3, 24>, StackN::<3, 24>, E8a8d, true, 3, "stackn");
+config!(CStack8x3m, "stack8x3m", dyn TNone, Stack<31>, Stack::<31>, E8a8d, true, 3, "stack");
+config!(CStack8x3p, "stack8x3p", dyn TNone, Stack<25>, Stack::<25>, E8a8d, true, 3, "stack");
+config!(CStack8x2p, "stack8x2p", dyn TNone, Stack<23>, Stack::<23>, E8a8d, true, 2, "stack");
+config!(CStackN2, "stackn2", dyn TNone, StackN<2, 17>, StackN::<2, 17>, E8a8d, true, 2, "stackn");
+config!(CStackN3, "stackn3", dyn Cloneable, StackN<3, 24>, StackN::<3, 24>, E8a8d, true, 3, "stackn", cloneable);
 
 fn cfg_json<C: Config>(profile: &str) -> Value {
     let (fixed, fcap, backend) = C::backend();
     json!({
         "name": C::NAME, "fixed": fixed, "fcap": fcap, "backend": backend,
         "esz": C::E::SZ, "ealign": C::E::AL, "drop": C::E::DROP, "ids": C::E::SZ != 0,
-        "cloneable": C::CLONEABLE, "trackcap": false, "maxu": MAXU, "profile": profile,
+        "cloneable": C::CLONEABLE, "resizable": C::RESIZABLE, "trackcap": false, "maxu": MAXU, "profile": profile,
         "alloc": cfg!(feature = "alloc"), "elem": C::E::NAME
     })
 }
@@ -133,8 +164,12 @@ fn replay<C: Config>(cases: &str, out: &str, shard: (usize, usize), nvecs: usize
     let marks = std::fs::File::create(format!("{}.run", out)).expect("marker file");
     let mut marks = BufWriter::new(marks);
     reg::reset();
+    reg::clear_cbs();
     let mut w0: World<C> = World::new(nvecs);
-    let init = w0.observe();
+    let (icbs, _) = reg::take_cbs();
+    let (_, _, _, _, init_mem) = cbs_json(&icbs);
+    let mut init = w0.observe();
+    init["mem"] = json!(init_mem);
     let _ = w0.teardown();
     let _ = (&pos, &kids, &roots);
     // events are buffered: positions of dynamically created nodes (fault runs, health probes) are only known at the end
@@ -163,7 +198,7 @@ fn replay<C: Config>(cases: &str, out: &str, shard: (usize, usize), nvecs: usize
             for &pk in &chain[..chain.len() - 1] {
                 let _ = world.step(&nodes[pk].act);
                 let obs = world.observe().to_string();
-                if check && fnv(&obs) != postsig[pk] { *nondet += 1; nondet_at.push((nodes[pk].id, n.id)); }
+                if check && fnv(&obs) != postsig[pk] { *nondet += 1; nondet_at.push((nodes[pk].id, n.id)); if std::env::var("VERIF_DEBUG").is_ok() && *nondet < 3 { eprintln!("NONDET {} {}: {}", nodes[pk].id, n.id, obs); } }
             }
             world.notes.clear();
             world
@@ -174,6 +209,7 @@ fn replay<C: Config>(cases: &str, out: &str, shard: (usize, usize), nvecs: usize
         let ncalls = reg::user_calls() - calls0;
         let post = world.observe();
         postsig[k] = fnv(&post.to_string());
+        if std::env::var("VERIF_DEBUG").is_ok() && n.id <= 2 { eprintln!("FIRST {}: {}", n.id, post); }
         let mut ev = event_json::<C>(n.id, &n.act, &o, &cbs, ovf, &post, &mut world);
         finish_td::<C>(&mut ev, &mut world, false);
         evs.push((ppos, ev));
@@ -256,12 +292,13 @@ fn event_json<C: Config>(id: i64, act: &Value, o: &ActOut, cbs: &[reg::Cb], ovf:
 /// `skip`: the world lives on (a chain of events from one execution); otherwise tear everything down and log it
 fn finish_td<C: Config>(ev: &mut Value, world: &mut World<C>, skip: bool) {
     if skip {
-        ev["td"] = json!({"skip": true, "drops": [], "live": [], "panic": false, "zst": 0});
+        ev["td"] = json!({"skip": true, "drops": [], "live": [], "panic": false, "zst": 0, "mem": [], "nblk": 0});
     } else {
         let (tcbs, tpanic) = world.teardown();
         let live: Vec<u32> = reg::live_ids();
-        let (tdrops, _, _, _, _) = cbs_json(&tcbs);
-        ev["td"] = json!({"skip": false, "drops": tdrops, "live": live, "panic": tpanic, "zst": reg::zst_live()});
+        let (tdrops, _, _, _, tmem) = cbs_json(&tcbs);
+        ev["td"] = json!({"skip": false, "drops": tdrops, "live": live, "panic": tpanic, "zst": reg::zst_live(),
+                          "mem": tmem, "nblk": fence::live_blocks()});
     }
 }
 
@@ -299,7 +336,7 @@ fn main() {
         };
     }
     #[cfg(feature = "alloc")]
-    dispatch!(CHeap8d, CHeap3n, CHeap160, CHeap0d, CHeap1n, CHeap2d, CHeap12d, CHeap16d, CHeap24d, CHeap32d, CHeap64n, CHeap160a32, CHeap0n, CStack24x3, CStackN3);
+    dispatch!(CHeap8d, CHeap3n, CHeap160, CHeap0d, CHeap1n, CHeap2d, CHeap12d, CHeap16d, CHeap24d, CHeap32d, CHeap64n, CHeap160a32, CHeap0n, CFence8d, CFence3n, CFence24d, CFence160, CFence0d, CStack24x3, CStackN3, CStack8x3m, CStack8x3p, CStack8x2p, CStackN2);
     #[cfg(not(feature = "alloc"))]
-    dispatch!(CStack24x3, CStackN3);
+    dispatch!(CFence8d, CFence3n, CFence24d, CFence160, CFence0d, CStack24x3, CStackN3, CStack8x3m, CStack8x3p, CStack8x2p, CStackN2);
 }
